@@ -292,11 +292,9 @@ def membersFit : List (Gap × LMember) → Bool
     * names follow the grammar, member names are pairwise distinct, there is a method, no `??`;
     * comment texts contain no line feed; gaps are non-empty where two words would merge;
     * (guard 1) every member starts on a new line — its gap contains a line break;
-    * (guard 2) the type of an error is separated from the name by spaces and tabs only (known finding);
-    * (guard 3) no line break between `interface` and the interface name (idl.go takes the interface
-      documentation behind that gap). -/
+    * (guard 2) the type of an error is separated from the name by spaces and tabs only (known finding). -/
 def LIdl.fits (L : LIdl) : Bool :=
-  L.g0.wf && L.ig1.blank && !L.ig1.isEmpty && isInterfaceNameB L.name && membersFit L.members
+  L.g0.wf && L.ig1.wf && !L.ig1.isEmpty && isInterfaceNameB L.name && membersFit L.members
     && uniqueNames (L.members.map fun p => p.2.name) && L.members.any (fun p => p.2.isMethod)
     && L.gEnd.wf && (match L.finalComment with | none => true | some t => t.all (fun c => c != 10))
 
